@@ -13,6 +13,168 @@ def build(flavour="plain"):
     return vlib.build_exe("vsx", srcs, flavour, lib, extra_flags=["-I" + VQ, "-I" + os.path.join(vlib.VERIF, "engine", "seqx")], variant="vq")
 
 
+def classify_frames(frames):
+    """frames: [(function, path)] from the access outwards (inlined frames expanded). -> the library function that performs this
+    access, or None when the access belongs to the scheduler, the Qt model or the harness. Frames in system headers / the
+    sanitizer runtime are skipped, but if one of them is a template over a scheduler or model type (vs::, vqt::) the access is
+    the model's. The first remaining frame decides: a path under <repo>/src (or a QtLogger:: function without line
+    information) = library code."""
+    repo_src = os.path.join(os.path.realpath(vlib.REPO), "src")
+    for fn, path in frames:
+        if "vs::" in fn or "vqt::" in fn or "/verif/engine/" in path:
+            return None
+        if path.startswith("/usr/") or "libsanitizer" in path or path.startswith("../") or path.startswith("./"):
+            continue
+        if path.startswith(repo_src) or os.path.realpath(path).startswith(repo_src):
+            return fn
+        if path in ("<null>", "??", ""):
+            if fn.startswith("QtLogger::"):
+                return fn
+            continue
+        return None
+    return None
+
+
+def symbolize(exe, offsets):
+    """module offsets of the executable -> [(function, path)] inline chain, innermost first (one addr2line call)"""
+    import subprocess
+    if not offsets:
+        return {}
+    offs = sorted(offsets)
+    r = subprocess.run(["addr2line", "-a", "-f", "-C", "-i", "-e", exe] + ["0x%x" % o for o in offs], capture_output=True, text=True, timeout=600)
+    out, cur = {}, None
+    lines = r.stdout.splitlines()
+    i = 0
+    while i < len(lines):
+        l = lines[i]
+        if l.startswith("0x") and " " not in l:
+            cur = int(l, 16)
+            out[cur] = []
+            i += 1
+            continue
+        if cur is not None and i + 1 < len(lines):
+            out[cur].append((l, lines[i + 1].rsplit(":", 1)[0]))
+            i += 2
+            continue
+        i += 1
+    return out
+
+
+def race_pass(scenarios, tier, prop="race"):
+    """ThreadSanitizer UNDER the serialising scheduler: the same scenario bodies, every explored schedule race-checked. The
+    scheduler's baton is a raw futex in an uninstrumented translation unit, so the only happens-before edges the detector sees
+    are those announced by the Qt model for real synchronisation (VQT_ACQ / VQT_REL). A report counts only if BOTH accesses
+    are made by library code (innermost frame outside std:: lies in namespace QtLogger): races on the model's or the harness's
+    own bookkeeping are expected (they are serialised by the invisible baton) and dropped.
+    -> (violations, coverage dict)"""
+    import glob, re, shutil, subprocess, tempfile
+    lib = vlib.build_lib("tsan", variant="vq", per_file_flags={"logger.cpp": RETARGET, "configure.cpp": RETARGET})
+    srcs = [(os.path.join(VQ, "vsx.cpp"), RETARGET + ["-fno-access-control"]), os.path.join(VQ, "vqt.cpp"),
+            (os.path.join(VQ, "vsched.cpp"), ["-fno-sanitize=thread"])]
+    exe = vlib.build_exe("vsx", srcs, "tsan", lib, extra_flags=["-I" + VQ, "-I" + os.path.join(vlib.VERIF, "engine", "seqx")], variant="vq")
+    root = tempfile.mkdtemp(prefix="verif-tsan-", dir="/dev/shm")
+    viols, execs, reports, dropped, terminated_execs = [], 0, 0, 0, 0
+    try:
+        def one(i_sc):
+            i, sc = i_sc
+            d = os.path.join(root, "s%d" % i)
+            os.makedirs(d)
+            args = []
+            for k, v in sc.items():
+                if not k.startswith("_"):
+                    args += ["--" + k, str(v)]
+            env = dict(os.environ, VQT_RANGE_DIR=d, TSAN_OPTIONS="log_path=%s/tsan symbolize=0 halt_on_error=0 exitcode=0 report_signal_unsafe=0 history_size=4 die_after_fork=0 atexit_sleep_ms=0" % d)
+            r = subprocess.run([exe] + args, capture_output=True, text=True, env=env, timeout=3000)
+            js = None
+            for line in reversed(r.stdout.strip().splitlines()):
+                if line.startswith("{"):
+                    try:
+                        js = json.loads(line)
+                        break
+                    except ValueError:
+                        pass
+            return sc, d, r.returncode, js, r.stderr[-1500:]
+        import concurrent.futures, json
+        jobs = []
+        for sc in scenarios:
+            n = sc.get("_shards", vlib.NCPU if sc.get("bound", 0) >= 1 else 1)
+            for i in range(n):
+                j = dict(sc); j["shard"] = i; j["nshards"] = n
+                jobs.append(j)
+        with concurrent.futures.ThreadPoolExecutor(max_workers=vlib.NCPU) as ex:
+            results = list(ex.map(one, enumerate(jobs)))
+        seen = set()
+        cand = []          # (scenario, report text, [frames of access 1], [frames of access 2]) with frames as module offsets
+        offsets = set()
+        exe_name = os.path.basename(exe)
+        for sc, d, rc, js, err in results:
+            if rc != 0 or js is None:
+                raise vlib.EngineError("race pass: scenario %r failed rc=%r %s" % (sc, rc, err))
+            execs += js.get("cases", 0)
+            for f in glob.glob(os.path.join(d, "tsan.*")):
+                txt = open(f, errors="replace").read()
+                ranges, killed = [], False
+                try:
+                    for l in open(os.path.join(d, "ranges." + f.rsplit(".", 1)[1])):
+                        if l.startswith("TERMINATE"):
+                            killed = True
+                            continue
+                        a, b = l.split()
+                        ranges.append((int(a, 16), int(b, 16)))
+                except OSError:
+                    pass
+                if killed:
+                    terminated_execs += 1
+                    continue            # QThread::terminate() ran (wait(3000) timed out as a deviation): a killed thread orders nothing, by design
+                for rep in txt.split("==================")[1:]:
+                    if "WARNING: ThreadSanitizer: data race" not in rep:
+                        continue
+                    reports += 1
+                    m = re.search(r"of size \d+ at (0x[0-9a-f]+)", rep)
+                    addr = int(m.group(1), 16) if m else 0
+                    if any(lo <= addr < hi for lo, hi in ranges):
+                        dropped += 1          # the racing location is a field of a model object (lock word, atomic value, QObject base ...)
+                        continue
+                    blocks = re.split(r"\n\s*\n", rep)
+                    acc = [b for b in blocks if re.search(r"(Write|Read|write|read) of size", "\n".join(b.strip().split("\n")[:2]))]
+                    if len(acc) < 2:
+                        dropped += 1
+                        continue
+                    fr = []
+                    for b in acc[:2]:
+                        one_acc = []
+                        for mm in re.finditer(r"#\d+ .*?\((\S+?)\+0x([0-9a-f]+)\)", b):
+                            mod, off = mm.group(1), int(mm.group(2), 16)
+                            one_acc.append((mod, off))
+                            if os.path.basename(mod) == exe_name:
+                                offsets.add(off)
+                        fr.append(one_acc)
+                    cand.append((sc, rep, fr))
+        sym = symbolize(exe, offsets)
+        for sc, rep, fr in cand:
+            tops = []
+            for one_acc in fr:
+                frames = []
+                for mod, off in one_acc:
+                    if os.path.basename(mod) == exe_name:
+                        frames += sym.get(off, [("??", "??")])
+                    else:
+                        frames.append(("runtime", "/usr/lib/" + os.path.basename(mod)))
+                tops.append(classify_frames(frames))
+            if all(tops):
+                key = "data-race:" + " / ".join(sorted(re.sub(r"\(.*", "", t)[:80] for t in tops))
+                if key not in seen:
+                    seen.add(key)
+                    viols.append({"key": key, "what": "scenario %s: ThreadSanitizer reports a data race between library code %s and %s that no lock / atomic / event hand-off orders" % (
+                        " ".join("%s=%s" % kv for kv in sc.items() if not kv[0].startswith("_")), tops[0], tops[1]),
+                        "replay": vlib.write_replay(prop, "race-%d" % len(viols), {"scenario": {k: v for k, v in sc.items() if not k.startswith("_")}, "accesses": tops, "report": rep[:3000]})})
+            else:
+                dropped += 1
+    finally:
+        shutil.rmtree(root, ignore_errors=True)
+    return viols, {"race_pass_executions": execs, "race_reports_total": reports, "race_reports_on_model_or_harness_data_dropped": dropped, "race_reports_in_library_code": len(viols), "executions_left_out_because_a_thread_was_terminated": terminated_execs}
+
+
 def scenario_args(sc, nshards, deadline_s):
     """sc: dict(scenario=..., p=, m=, backlog=, racer=, cycles=, glib=, bound=)"""
     base = []
@@ -73,9 +235,18 @@ def conformance():
     return len(ok_lines)
 
 
-def vs_check(prop, tier, scenarios, rule, assumptions, deadline_s, flavour="plain", extra_violations=None, extra_cov=None, min_outcomes=None):
+def vs_check(prop, tier, scenarios, rule, assumptions, deadline_s, flavour="plain", extra_violations=None, extra_cov=None, min_outcomes=None, race_scenarios=None):
     t = vlib.Timer()
     nrules = conformance()
+    if race_scenarios:
+        rv, rc = race_pass(race_scenarios, tier, prop)
+        extra_violations = (extra_violations or []) + rv
+        extra_cov = dict(extra_cov or {})
+        extra_cov["race_pass"] = rc
+        rule += (" RACE PASS: the same scenario bodies are explored a second time in a ThreadSanitizer build under the same serialising scheduler (its hand-offs are a raw futex in an "
+                 "uninstrumented file and therefore invisible to the detector; the Qt model announces exactly the happens-before edges of real synchronisation: lock/unlock, acquire/release "
+                 "atomics, event post -> delivery, thread start, thread finish -> wait); every explored schedule is race-checked and a report counts when both accesses are made by library code "
+                 "on memory that is not a field of a model object")
     exe = build(flavour)
     per, fails = run_scenarios(exe, scenarios, deadline_s)
     tot = seqxrun.merge([])
